@@ -65,6 +65,16 @@ func c15Menu() []c15Rec {
 	// complement-strand spliced regions with an odd number of parts
 	tables = append(tables,
 		[]gts.Feature{c15Feature("f1", "CDS", gts.Complemented{Location: gts.Joined{gts.Range(0, 3), gts.Range(4, 7), gts.Range(9, 12)}}), c15Feature("f2", "gene", gts.Range(5, 6)), c15Feature("f3", "gene", gts.Complemented{Location: gts.Range(4, 7)})})
+	// a feature located through a later value of a multi-valued qualifier
+	{
+		f1 := c15Feature("f1", "gene", gts.Range(2, 7))
+		f1.Props = append(f1.Props, []string{"product", "p1", "q2"})
+		f2 := c15Feature("f2", "gene", gts.Complemented{Location: gts.Range(5, 10)})
+		f2.Props = append(f2.Props, []string{"product", "q2"})
+		f3 := c15Feature("f3", "gene", gts.Range(8, 11))
+		f3.Props = append(f3.Props, []string{"product", "p1"})
+		tables = append(tables, []gts.Feature{f1, f2, f3})
+	}
 	var out []c15Rec
 	for ti, t := range tables {
 		for _, circ := range []bool{false, true} {
@@ -760,7 +770,7 @@ func init() {
 					specs = append(specs, fmt.Sprint(p))
 				}
 			}
-			specs = append(specs, "3..7", "1..12", "6..6", "10..12", "complement(3..7)", "complement(1..4)", "gene", "CDS", "misc", "gene/note=f1", "/note=f")
+			specs = append(specs, "3..7", "1..12", "6..6", "10..12", "complement(3..7)", "complement(1..4)", "gene", "CDS", "misc", "gene/note=f1", "/note=f", "gene/product=q2", "/product=p1")
 			mods := []string{"", "@^", "@$", "@^..$", "@^+1..$-1", "@^-1..$+1", "@^+1..^+2", "@^..^", "@$-2..$"}
 			if thorough {
 				mods = append(mods, "@^+2", "@$-1", "@^-2..^", "@$..$+2", "@^+1..$")
